@@ -261,6 +261,42 @@ def run(ctx, rep_):
     rep_.assume("the compatibility relation eq_complex over compound types, container element kinds and `typeof` text are not decided")
     rep_.assume("a data-dependent failure (overflow, zero divisor, nil) is a defined dynamic failure, not a typing failure")
     run_optable(ctx, rep_, F)
+    # ---- (d) all-paths-return marking ----------------------------------------------------------------------
+    MARK = "compiler::parser::AssocFileData::mark_should_return_as_completed"
+    callers = F.callers_of(MARK)
+    allowed = {"compiler::parser::Parser::if_statement", "compiler::parser::Parser::return_statement"}
+    rep_.floor("C02.return-marking call sites", len(callers), 2)
+    for f, c in callers:
+        ok = bool(f.forms & allowed)
+        rep_.ob("C02.return-marking", "a function is marked as returning only by `return` or by an `if` whose branches all return (caller %s)" % mir.short(f.path),
+                "ok" if ok else "violated", "a loop or another construct marking its enclosing function as always-returning lets a function fall off its end "
+                "without a value", c.span, fn=f.path, key="C02.return-marking|caller|%s" % mir.short(f.path))
+    ifs = F.fn("compiler::parser::Parser::if_statement")
+    if ifs is None:
+        raise AnchorMissing("Parser::if_statement")
+    marks = ifs.calls_to(MARK)
+    abr = sorted(ifs.calls_to("compiler::scope::ScopeReturnStatus::all_branches_return"), key=lambda c: c.bb)
+    if marks and abr:
+        doms = [c for c in abr if all(ifs.dominates(c.bb, o.bb) for o in abr)]
+        first = doms[0] if doms else abr[0]
+        v, info = rules.guarded_by_bool(ifs, [m.bb for m in marks], [first.dst["l"]], want=True)
+        rep_.ob("C02.return-marking", "if: marking requires that every path of the `if` body returns", v, str(info), marks[0].span, fn=ifs.path,
+                key="C02.return-marking|if-body")
+        # and either the else branch returns on all paths or the condition is known to be true
+        others = [c for c in abr if c is not first]
+        truthy = [l for l, nm in ifs.names.items() if "truthy" in nm]
+        seeds = [c.dst["l"] for c in others] + truthy
+        der = ifs.derived(seeds)
+        sws = rules.bool_switches(ifs, der)
+        removed = {(bb, t_t) for bb, t_t, f_t, pol in sws if pol}
+        reach = ifs.reachable(0, removed_edges=removed)
+        bad = [m.bb for m in marks if m.bb in reach]
+        rep_.ob("C02.return-marking", "if: marking also requires that the else branch returns on every path (or the condition is constant true)",
+                "violated" if bad or not sws else "ok", "tests: %d" % len(sws), marks[0].span, fn=ifs.path, key="C02.return-marking|else-branch")
+    else:
+        rep_.ob("C02.return-marking", "if: marking is guarded by all_branches_return", "violated", "anchors missing in if_statement", ifs.span, fn=ifs.path,
+                key="C02.return-marking|if-body")
+
     if _builtins is not None:
         _builtins.run(F, rep_, "C02.builtin", None)
     if _visit is not None:
